@@ -3,16 +3,40 @@ HOOKS = {
     "guard": "verif",
     "enable": "go build -tags 'verif dragonboat_monkeytest' (the harness module /verif/harness replaces github.com/lni/drummer/v3 => /repo; tests/, client/, lcm/ need dragonboat_monkeytest to compile)",
     "baseline_off_cmd": "cd /repo && GOFLAGS=-mod=mod GOPROXY=off GOSUMDB=off go test -vet=off -count=1 -timeout 25m ./...",
-    "source_commits": [],
+    "source_commits": ["af17878"],
     "add_only": True,
 }
 NOTES = "Every check: bin/vcheck <id> <tier> = factgen (regenerate Gen/*.lean from /repo) + lake build of the property's theorems + axiom audit + go build of the harness from /repo + correspondence diff (real code vs Lean driver) + Go-side oracles on the implementation trace. See DESIGN.md."
 NA = {}
 DBTB = "Trusted: Lean kernel; factgen + bridge lemmas; the dbdiff correspondence (real drummer.NewDB state machine vs Model/Db.lean, compared after every command on a canonical dump of the state SaveSnapshot serialises); protobuf/JSON decoding; uint64 time not overflowing."
+TECH = "Lean 4 proof over an executable model + differential correspondence with the real code + regenerated (factgen) definitions"
 META = {
     "C13": {
         "text": "Unbounded Lean theorems over the DB model: the complete one-write law of applyKVUpdate (kv_write_law, kv_write_code), finalized records survive every command history (finalized_immutable, induction over the command list), the definition gate (definition_gate) and its lift to histories (defs_history). The model is the object dbdiff compares with the real DB after every command; a Go-side oracle re-states the laws on the implementation's own states and is what produces the failing input.",
-        "note": DBTB,
-        "technique": "Lean 4 proof (induction over command histories) + differential correspondence with the real DB + regenerated predicate bridge",
+        "note": DBTB, "technique": TECH,
+    },
+    "C10": {
+        "text": "Refinement proof: the Requests/Outgoing maps of the DB model refine, for every address and every command history, a two-slot mailbox specification (history_refines; per-command step_refines, schedule_refines, report_reply), and everything ever handed to an address is addressed to it (only_addressee). dbdiff ties the model to the real DB; the Go-side oracle runs the mailbox specification against the real REQUESTS lookup after every command.",
+        "note": DBTB, "technique": TECH,
+    },
+    "C09": {
+        "text": "Theorems over the DB model for all command histories: a mixed batch is never accepted (never_mixed), a launch batch is ignored once launched and the launched flag is permanent (launch_ignored_when_launched, launched_forever), acceptance arms the deadline (launch_accepted), a tick fail-stops iff the new time is past an armed deadline (tick_failstop_iff), a report disarms exactly when every defined shard is fully reporting and a disarmed DB stays disarmed (report_disarms, disarmed_forever, deadline_history); Failed/LaunchDeadline are among the snapshot fields (failed_persisted, regenerated field fact); the deadline condition and the launch-request test are regenerated from db.go and proved equal to the model's. Found and fixed F-C09.",
+        "note": DBTB + " The fail-stop itself (Go panic, Failed latch) is observed by the harness: after a late tick every update, query, snapshot and hash must panic.", "technique": TECH,
+    },
+    "C05": {
+        "text": "Theorems over the DB model: the three replica classes are characterised by (last own report time, first observed time, now) exactly as the property states and partition the membership (class_characterisation, classes_exclusive, classes_partition); availability = strict majority of healthy members; a host silent for more than the timeout passes neither the placement nor the restore predicate, one more recent than the timeout passes both (silent_host_never_used); time moves only by ticks, by one fixed step (tick_step); stored times never exceed now in any reachable state, so uint64 subtraction never wraps (stored_le_now); the complete per-report law of the liveness record (report_law). All predicates are regenerated from shardimage.go / nodehostimage.go / filter.go by factgen and proved equal to the model's (code_* theorems).",
+        "note": DBTB, "technique": TECH,
+    },
+    "C04": {
+        "text": "Theorems over the DB model for every report consistent with a membership history H: a first complete report creates a view mirroring H, syncShard keeps the view mirroring H and never lowers the version, an older/pending/incomplete entry changes neither version nor membership, FirstObserved of surviving members is kept (first_report_mirrors, sync_mirrors, sync_newer, update_mirrors, version_never_decreases). The Go-side oracle recomputes 'membership of the complete report with the highest version so far' from the command history alone and compares it with the real view after every command.",
+        "note": DBTB, "technique": TECH,
+    },
+    "C11": {
+        "text": "DB-level clauses proved over the model: a kill entry is recorded only for a listed replica that is not a member of the view and whose reported version is older than the view's (kill_test_spec, kill_entry_justified), and after a report from address a the kill list is exactly the other addresses' entries plus a's currently reported stray replicas (kill_list_after_report) - so entries stop with the first report that no longer lists the replica. Found and fixed F-C11. Closed-loop clauses (member_never_killed, quiescence) are served by the loop model once loopsim is registered.",
+        "note": DBTB, "technique": TECH,
+    },
+    "C03": {
+        "text": "In the model apply is a function of state and command, so determinism is by construction; what carries content is (i) the regenerated field fact snapshot_fields_agree (every serialised field of DB is restored by RecoverFromSnapshot and nothing else), (ii) order irrelevance of the one map-order-dependent merge (merge_order_irrelevant), and (iii) the correspondence run, which executes every sequence on three real replicas (straight, restored from a snapshot at a random prefix, repeated run) and compares results, hashes, dumps and the scheduler-context answer among them and with the model. F-C03 (non-UTF-8 KV key lost by the JSON snapshot) is a recorded known finding.",
+        "note": DBTB + " JSON text and md5 are not modelled in Lean; hashes are compared as equality classes.", "technique": TECH,
     },
 }
